@@ -1150,8 +1150,26 @@ func TestVerif_C42(t *testing.T) {
 		}
 	}
 
+	// round-wrap alphabet: from the FRESH state (lastRnd 0), rounds at both ends of uint64, so that
+	// every pair (lastRnd, rnd) whose unsigned difference wraps to +1 / -1 is a transition
+	var ralpha []c42op
+	{
+		k := 0
+		for _, id := range idents[:2] {
+			// (round 0 is not in the alphabet: canonical msgpack omits a zero rnd, the stateless layer
+			// requires the field and the sender falls back to the uncompressed vote - no vote exists for round 0)
+			for _, rnd := range []uint64{1, 2, math.MaxUint64 - 1, math.MaxUint64} {
+				for _, pr := range []c42prop{props[0], props[1]} {
+					per, st := periods[k%2], steps[k%5]
+					k++
+					ralpha = append(ralpha, c42op{c42name(id, rnd, per, st, pr), c42build(id, rnd, per, st, pr, 0x0f).msgpack()})
+				}
+			}
+		}
+	}
+
 	// every alphabet vote is a real, canonical vote encoding for the generated codec
-	alphabets := map[string][]c42op{"full": full, "core36": core36, "core54": core54, "window": walpha}
+	alphabets := map[string][]c42op{"full": full, "core36": core36, "core54": core54, "window": walpha, "roundwrap": ralpha}
 	for name, al := range alphabets {
 		for _, op := range al {
 			if err := c42codecCheck(op.msgp); err != nil {
@@ -1191,6 +1209,9 @@ func TestVerif_C42(t *testing.T) {
 	}
 	if r.Violations() == 0 {
 		c42seq(r, &cov, "seq/window16", 16, walpha, preamble, dWindow)
+	}
+	if r.Violations() == 0 {
+		c42seq(r, &cov, "seq/roundwrap16", 16, ralpha, nil, 40)
 	}
 	if r.Violations() == 0 {
 		c42seq(r, &cov, "seq/presence16", 16, palpha, nil, 3)
